@@ -34,7 +34,8 @@ def check_C16(tier):
     spawn = [c for c in seqs if c["end"] != "upgraded"]
     if not thorough:
         spawn = spawn[::2]
-    for kind in ("unix", "unix-mode", "abstract", "tcp", "activate", "bridge"):
+    for kind in ("unix", "unix-mode", "abstract", "tcp", "activate", "bridge",
+                 "unix-lib", "unix-mode-lib", "abstract-lib", "tcp-lib", "tcp6-lib", "tcp-localhost-lib"):
         cs = seqs if kind in ("unix", "unix-mode", "abstract", "tcp") else spawn
         fails, summ, _ = run_vh(vh, ["transport", "--kind=" + kind], cs, timeout=900, hang_is_failure=True, death_is_failure=True)
         res.add_failures(fails, "transport-" + kind)
@@ -45,7 +46,8 @@ def check_C16(tier):
     res.rule = ("Addr.tla tables enumerated completely: 13 address schemes x with/without ';' parameters (client and server must agree on "
                 "invalid-address), 132 consistent activation environments (LISTEN_FDS x LISTEN_PID x LISTEN_FDNAMES) probed in a child "
                 "process whose pid is in LISTEN_PID; the ConnRef request sequences (representatives, length <= 2/3) over unix path, "
-                "unix path;mode, abstract, tcp, with_activate (child dumps environment and descriptor 3) and with_bridge (stdio server); "
+                "unix path;mode, abstract, tcp (raw client, and the library's own client for unix / unix;mode / abstract / tcp 127.0.0.1 / "
+                "tcp [::1] / tcp localhost), with_activate (child dumps environment and descriptor 3) and with_bridge (stdio server); "
                 "non-trivial = distinct sequences + table rows")
     res.exhaustive = True
     res.assumptions = ["tcp addresses with ';' parameters and activation environments naming more descriptors than passed are don't-care",
